@@ -60,6 +60,18 @@ partial def bkid? : Sexp → Option BKid
       pure (.el t attrs kids)
   | _ => none
 
+def fattr? : Sexp → Option (Name × FAttr)
+  | .list [.str n, .atom "hole"] => some (n, .hole)
+  | .list [.str n, .list [.atom "lit", .str v]] => some (n, .lit v)
+  | _ => none
+
+def fpiece? : Sexp → Option FPiece
+  | .list [.atom "T", .str s] => some (.text s)
+  | .atom "H" => some .hole
+  | .list [.atom "S", .str t, .list attrs] => do let attrs ← attrs.mapM fattr?; pure (.open t attrs)
+  | .list [.atom "E", .str t] => some (.close t)
+  | _ => none
+
 def sexpr? : Sexp → Option SExpr
   | .list [.atom "v", e] => do let e ← vexpr? e; pure (.v e)
   | .list [.atom "add", .str m, a] => do let a ← atom? a; pure (.add m a)
@@ -67,6 +79,8 @@ def sexpr? : Sexp → Option SExpr
   | .list (.atom "join" :: .str sep :: xs) => do let xs ← xs.mapM atom?; pure (.join sep xs)
   | .list [.atom "esc", a, q] => do let a ← atom? a; let q ← q.toBool?; pure (.esc a q)
   | .list [.atom "fmt", .str f, args] => do let args ← fargs? args; pure (.fmt f args)
+  | .list (.atom "fmtp" :: .list pieces :: args) => do
+      let pieces ← pieces.mapM fpiece?; let args ← args.mapM atom?; pure (.fmtp pieces args)
   | .list [.atom "build", b] => do let b ← bkid? b; pure (.build b)
   | .list (.atom "frag" :: ks) => do let ks ← ks.mapM bkid?; pure (.frag ks)
   | _ => none
@@ -90,18 +104,6 @@ partial def node? : Sexp → Option Node
       let a ← atom? a; let kids ← kids.mapM node?; pure (.bind a kids)
   | .list [.atom "cond", b, .list kids] => do
       let b ← b.toBool?; let kids ← kids.mapM node?; pure (.cond b kids)
-  | _ => none
-
-def fattr? : Sexp → Option (Name × FAttr)
-  | .list [.str n, .atom "hole"] => some (n, .hole)
-  | .list [.str n, .list [.atom "lit", .str v]] => some (n, .lit v)
-  | _ => none
-
-def fpiece? : Sexp → Option FPiece
-  | .list [.atom "T", .str s] => some (.text s)
-  | .atom "H" => some .hole
-  | .list [.atom "S", .str t, .list attrs] => do let attrs ← attrs.mapM fattr?; pure (.open t attrs)
-  | .list [.atom "E", .str t] => some (.close t)
   | _ => none
 
 def method? : Sexp → Option Method
